@@ -92,7 +92,7 @@ SPEC_UFS = {'Fstate', 'Fnext', 'Fout', 'depth', 'dom', 'cidx', 'kidx', 'pidx', '
             # abstract rationals (carrier: any injection Q -> Z): value of a (sign, exponent, mantissa, precision) tuple and the field operations
             'val', 'qadd', 'qsub', 'qmul', 'qneg', 'qcmp'}
 ACCESSORS = {'getSinks': 'sinks', 'getSource': 'source', 'getWidth': 'width'}
-SPEC_PREDS = {'dep', 'propagatable', 'clockable', 'integ', 'pow2p'}
+SPEC_PREDS = {'dep', 'propagatable', 'clockable', 'integ', 'pow2p', 'primitive'}
 
 
 def items_of(ex, st, ref):
